@@ -323,6 +323,9 @@ var vxPhases = []vxPhase{
 	{"saw", []int{0, 64, 128, 192, 255}, 20 * time.Second},
 	{"idle0-1h", []int{0}, time.Hour},
 	{"idle255-1h", []int{255}, time.Hour},
+	// not a regulation phase: the controller exists for 10 minutes before its first cycle (a fan that is analysed first);
+	// only generated as the FIRST phase of a history
+	{"startup-gap-10min", nil, 10 * time.Minute},
 }
 
 // closed loop at constant v after the given history; returns settle index, final request, trajectory head
@@ -331,6 +334,10 @@ func vxC04PidRun(c vxC04Case, horizon, window int) (settle int, final int, head 
 	tick := time.Duration(c.TickMs) * time.Millisecond
 	for _, ph := range c.History {
 		p := vxPhases[ph]
+		if p.Curve == nil {
+			time.Sleep(p.Dur)
+			continue
+		}
 		n := int(p.Dur / tick)
 		for k := 0; k < n; k++ {
 			time.Sleep(tick)
@@ -388,6 +395,9 @@ func TestVX_C04pid(t *testing.T) {
 			return
 		}
 		for p := range vxPhases {
+			if vxPhases[p].Curve == nil && len(cur) > 0 {
+				continue // the start-up gap can only come first
+			}
 			long := 0
 			for _, q := range cur {
 				if q >= 6 {
